@@ -195,7 +195,7 @@ Section Refine.
   (* ---- invariant of reachable registry states ---- *)
   Definition sinv (st : store) : Prop :=
     (forall d mt c, lookup d (t_mans st) = Some (mt, c) ->
-        d = H c /\ subject_of c = Some None /\ parse_mt mt = Some mt) /\
+        d = H c /\ sub_ok subject_of p c /\ parse_mt mt = Some mt) /\
     (forall d c, lookup d (t_other st) = Some c -> d = H c).
   Definition inv (g : reg) : Prop := sinv (store_of g).
 
@@ -530,30 +530,58 @@ Section Refine.
   Qed.
 
   (* ---- manifestStore.push ---- *)
-  Lemma subj_none c : subject_of c = Some None -> subj_of subject_of c = None.
-  Proof. unfold subj_of. now intros ->. Qed.
+  Notation sub_ok := (sub_ok subject_of p).
+  Notation rst_ok := (rst_ok p).
+
+  (* the referrers state after a successful PUT of [c] (checkOCISubjectHeader) *)
+  Definition rst_after (rst : rstate) (c : str) : rstate :=
+    match subject_of c with Some (Some _) => RSSupported | _ => rst end.
+
+  Lemma rst_after_ok rst c : rst_ok rst -> rst_ok (rst_after rst c).
+  Proof.
+    unfold rst_after, RemoteSpec.rst_ok. intros [A|A]; auto.
+    destruct (subject_of c) as [[?|]|]; auto. left. discriminate.
+  Qed.
+
+  Lemma subj_hdr rst c :
+    sub_ok c -> rst_ok rst ->
+    match nstr (if p_referrers p
+                then match subj_of subject_of c with Some s => Some (d_dg s) | None => None end
+                else None) with
+    | [] => rst
+    | _ => rs_set rst true
+    end = rst_after rst c.
+  Proof.
+    unfold rst_after, subj_of. intros [Sj|(Pr & s & Sj & Ne)] Hr; rewrite Sj.
+    - destruct (p_referrers p); reflexivity.
+    - rewrite Pr. cbn [nstr]. destruct (d_dg s); [congruence|].
+      destruct Hr as [Hr|Hr]; [|congruence]. destruct rst; cbn; congruence.
+  Qed.
+
+  Definition rst_of (res : result) (rst : rstate) (c : str) : rstate :=
+    match res with ROk => rst_after rst c | _ => rst end.
 
   Lemma man_put_exec g n rst d c sized rf :
-    valid_ref rf = true -> len c = d_sz d -> H c = d_dg d -> subject_of c = Some None ->
+    valid_ref rf = true -> len c = d_sz d -> H c = d_dg d -> sub_ok c -> rst_ok rst ->
     valid_digest (d_dg d) = true ->
     exists g' n' t,
       man_put main S ex0 (g, n) rst d c sized rf
-      = ((g', n'), rst, t, snd (put_manifest (store_of g) (d_dg d) (d_mt d) c rf)) /\
+      = ((g', n'), rst_of (snd (put_manifest (store_of g) (d_dg d) (d_mt d) c rf)) rst c, t,
+         snd (put_manifest (store_of g) (d_dg d) (d_mt d) c rf)) /\
       store_of g' = fst (put_manifest (store_of g) (d_dg d) (d_mt d) c rf).
   Proof.
-    intros Vr Hs Hh Sj V. unfold man_put.
+    intros Vr Hs Hh Sj Hr V. unfold man_put.
     rewrite Hs, N.eqb_refl. cbn [negb]. rewrite andb_false_r.
     unfold cexch, handle. proj. rewrite str_eqb_refl. proj.
-    rewrite <- Hs, N.eqb_refl. cbn [negb]. rewrite Hh, (subj_none _ Sj).
+    rewrite <- Hs, N.eqb_refl. cbn [negb]. rewrite Hh.
     unfold put_manifest. unfold valid_ref in Vr.
     destruct (valid_digest rf) eqn:Vd; cbn [negb andb orb] in *.
     - destruct (str_eqb rf (d_dg d)) eqn:Eq; cbn [negb].
-      + simp. assert (X : (if p_referrers p then @None str else None) = None) by (destruct (p_referrers p); reflexivity).
-        rewrite X. simp. rewrite vd_opt by exact V. eexists _, _, _. split; reflexivity.
+      + simp. rewrite (subj_hdr rst c Sj Hr). rewrite vd_opt by exact V.
+        eexists _, _, _. split; reflexivity.
       + simp. eexists _, _, _. split; reflexivity.
-    - rewrite Vr. cbn [negb]. simp.
-      assert (X : (if p_referrers p then @None str else None) = None) by (destruct (p_referrers p); reflexivity).
-      rewrite X. simp. rewrite vd_opt by exact V. eexists _, _, _. split; reflexivity.
+    - rewrite Vr. cbn [negb]. simp. rewrite (subj_hdr rst c Sj Hr). rewrite vd_opt by exact V.
+      eexists _, _, _. split; reflexivity.
   Qed.
 
   (* a PUT whose body does not hash to the digest reference is refused *)
@@ -576,22 +604,28 @@ Section Refine.
     unfold put_manifest. destruct (valid_digest rf); [destruct (str_eqb rf dg)|]; cbn; auto.
   Qed.
 
+  Lemma rst_of_ok res rst c : rst_ok rst -> rst_ok (rst_of res rst c).
+  Proof. intro Hr. destruct res; cbn [rst_of]; auto using rst_after_ok. Qed.
+
   (* pushWithIndexing *)
   Lemma man_push_exec g n rst d c rf :
-    valid_ref rf = true -> len c = d_sz d -> H c = d_dg d -> subject_of c = Some None ->
+    valid_ref rf = true -> len c = d_sz d -> H c = d_dg d -> sub_ok c -> rst_ok rst ->
     valid_digest (d_dg d) = true ->
     exists g' n' t,
       man_push H subject_of main S ex0 (g, n) rst d c rf
-      = ((g', n'), rst, t, snd (put_manifest (store_of g) (d_dg d) (d_mt d) c rf)) /\
+      = ((g', n'), rst_of (snd (put_manifest (store_of g) (d_dg d) (d_mt d) c rf)) rst c, t,
+         snd (put_manifest (store_of g) (d_dg d) (d_mt d) c rf)) /\
       store_of g' = fst (put_manifest (store_of g) (d_dg d) (d_mt d) c rf).
   Proof.
-    intros Vr Hs Hh Sj V. unfold man_push.
-    destruct (man_put_exec g n rst d c true rf Vr Hs Hh Sj V) as (g' & n' & t & E & St).
+    intros Vr Hs Hh Sj Hr V. unfold man_push.
+    destruct (man_put_exec g n rst d c true rf Vr Hs Hh Sj Hr V) as (g' & n' & t & E & St).
     destruct (indexable (d_mt d) && negb (rs_supported rst)) eqn:Ei.
     - rewrite Hs, N.eqb_refl, Hh, str_eqb_refl. cbn [negb orb]. rewrite E.
       destruct (put_manifest_result (store_of g) (d_dg d) (d_mt d) c rf) as [R|R]; rewrite R in *.
-      + apply andb_true_iff in Ei as [_ Ns]. apply negb_true_iff in Ns. rewrite Ns, Sj.
-        eexists _, _, _. split; [reflexivity|exact St].
+      + cbn [rst_of]. apply andb_true_iff in Ei as [_ Ns]. apply negb_true_iff in Ns.
+        unfold rst_after. destruct Sj as [Sj|(Pr & s & Sj & Ne)]; rewrite Sj.
+        * rewrite Ns. eexists _, _, _. split; [reflexivity|exact St].
+        * cbn [rs_supported]. eexists _, _, _. split; [reflexivity|exact St].
       + eexists _, _, _. split; [reflexivity|exact St].
     - rewrite E. eexists _, _, _. split; [reflexivity|exact St].
   Qed.
@@ -610,22 +644,40 @@ Section Refine.
     - apply man_put_bad; auto.
   Qed.
 
+  (* pingReferrers against a registry with the Referrers API *)
+  Lemma hx_referrers g n d :
+    p_referrers p = true ->
+    ex0 (g, n) (req GET main (EReferrers d))
+    = ((g, n + 1), mkResp 200 (Some mt_index) None None None false None
+                          (referrers_of (subj_of subject_of) g d) []).
+  Proof. intro Pr. unfold cexch, handle, req. proj. rewrite str_eqb_refl. proj. now rewrite Pr. Qed.
+
   (* deleteWithIndexing *)
   Lemma man_delete_hit g n rst d c :
-    inv g -> lookup (d_dg d) (g_mans g) = Some (d_mt d, c) -> len c = d_sz d ->
+    inv g -> rst_ok rst -> lookup (d_dg d) (g_mans g) = Some (d_mt d, c) -> len c = d_sz d ->
     valid_digest (d_dg d) = true ->
-    exists g' n' t, man_delete H parse_mt subject_of main S ex0 (g, n) rst d = ((g', n'), rst, t, ROk) /\
-                 store_of g' = mkStore (g_blobs g) (remove (d_dg d) (g_mans g))
-                                 (filter (fun t => negb (str_eqb (snd t) (d_dg d))) (g_tags g)) (g_other g).
+    exists g' n' rst' t,
+      man_delete H parse_mt subject_of main S ex0 (g, n) rst d = ((g', n'), rst', t, ROk) /\
+      rst_ok rst' /\
+      store_of g' = mkStore (g_blobs g) (remove (d_dg d) (g_mans g))
+                      (filter (fun t => negb (str_eqb (snd t) (d_dg d))) (g_tags g)) (g_other g).
   Proof.
-    intros Hi L Hs V. pose proof Hi as [I _]. destruct (I _ _ _ L) as (Hh & Sj & _).
-    unfold man_delete. destruct (indexable_del (d_mt d) && negb (rs_supported rst)).
+    intros Hi Hr L Hs V. pose proof Hi as [I _]. destruct (I _ _ _ L) as (Hh & Sj & _).
+    unfold man_delete. destruct (indexable_del (d_mt d) && negb (rs_supported rst)) eqn:Ei.
     - destruct (man_fetch_hit g n d c Hi L Hs V) as [t1 E1]. rewrite E1.
-      rewrite Hs, N.eqb_refl, <- Hh, str_eqb_refl. cbn [negb orb]. rewrite Sj.
-      destruct (delete_man_hit g (n + 1) d _ L V) as (g' & t2 & E2 & St). rewrite E2.
-      eexists _, _, _. split; [reflexivity|exact St].
+      rewrite Hs, N.eqb_refl, <- Hh, str_eqb_refl. cbn [negb orb].
+      destruct Sj as [Sj|(Pr & s & Sj & Ne)]; rewrite Sj.
+      + destruct (delete_man_hit g (n + 1) d _ L V) as (g' & t2 & E2 & St). rewrite E2.
+        eexists _, _, _, _. split; [reflexivity|]. split; [exact Hr|exact St].
+      + apply andb_true_iff in Ei as [_ Ns]. apply negb_true_iff in Ns.
+        assert (rst = RSUnknown) as ->.
+        { destruct Hr as [Hr|Hr]; [|congruence]. destruct rst; cbn in Ns; congruence. }
+        unfold ping_referrers. rewrite (hx_referrers g (n + 1) zero_digest Pr). simp.
+        rewrite str_eqb_refl. cbn [rs_set].
+        destruct (delete_man_hit g (n + 1 + 1) d _ L V) as (g' & t2 & E2 & St). rewrite E2.
+        eexists _, _, _, _. split; [reflexivity|]. split; [left; discriminate|exact St].
     - destruct (delete_man_hit g n d _ L V) as (g' & t2 & E2 & St). rewrite E2.
-      eexists _, _, _. split; [reflexivity|exact St].
+      eexists _, _, _, _. split; [reflexivity|]. split; [exact Hr|exact St].
   Qed.
 
   Lemma man_delete_miss g n rst d :
@@ -639,17 +691,18 @@ Section Refine.
 
   (* Tag = fetch + put *)
   Lemma man_tag_hit g n rst d rs rf c :
-    inv g -> resolve_ref main rs = Some rf ->
+    inv g -> rst_ok rst -> resolve_ref main rs = Some rf ->
     lookup (d_dg d) (g_mans g) = Some (d_mt d, c) -> len c = d_sz d -> valid_digest (d_dg d) = true ->
     exists g' n' t,
       man_tag parse_mt main S ex0 (g, n) rst d rs
-      = ((g', n'), rst, t, snd (put_manifest (store_of g) (d_dg d) (d_mt d) c rf)) /\
+      = ((g', n'), rst_of (snd (put_manifest (store_of g) (d_dg d) (d_mt d) c rf)) rst c, t,
+         snd (put_manifest (store_of g) (d_dg d) (d_mt d) c rf)) /\
       store_of g' = fst (put_manifest (store_of g) (d_dg d) (d_mt d) c rf).
   Proof.
-    intros Hi ER L Hs V. pose proof Hi as [I _]. destruct (I _ _ _ L) as (Hh & Sj & _).
+    intros Hi Hr ER L Hs V. pose proof Hi as [I _]. destruct (I _ _ _ L) as (Hh & Sj & _).
     unfold man_tag. rewrite ER.
     destruct (man_fetch_hit g n d c Hi L Hs V) as [t1 E1]. rewrite E1.
-    destruct (man_put_exec g (n + 1) rst d c false rf (resolve_ref_valid _ _ _ ER) Hs (eq_sym Hh) Sj V)
+    destruct (man_put_exec g (n + 1) rst d c false rf (resolve_ref_valid _ _ _ ER) Hs (eq_sym Hh) Sj Hr V)
       as (g' & n' & t2 & E2 & St).
     rewrite E2. eexists _, _, _. split; [reflexivity|exact St].
   Qed.
@@ -662,9 +715,23 @@ Section Refine.
     destruct (man_fetch_miss g n d L V) as [t1 E1]. rewrite E1. eauto.
   Qed.
 
+  (* ---------- Predecessors reflect the registry's state (Referrers API) ---------- *)
+  Theorem predecessors_reflect g n rst d :
+    p_referrers p = true -> rst <> RSUnsupported ->
+    predecessors main S ex0 (g, n) rst d
+    = ((g, n + 1), RSSupported,
+       [(req GET main (EReferrers (d_dg d)),
+         mkResp 200 (Some mt_index) None None None false None
+                (referrers_of (subj_of subject_of) g (d_dg d)) [])],
+       RDescs (referrers_of (subj_of subject_of) g (d_dg d))).
+  Proof.
+    intros Pr Hr. unfold predecessors.
+    destruct rst; try congruence; rewrite (hx_referrers g n (d_dg d) Pr); simp; rewrite str_eqb_refl; reflexivity.
+  Qed.
+
   Notation wf_op := (wf_op H parse_mt subject_of main user_mts p).
   Notation wf_hist := (wf_hist H parse_mt subject_of main user_mts p).
-  Notation spec_op' := (spec_op H main user_mts).
+  Notation spec_op' := (spec_op H subject_of main user_mts).
   Notation run_op' := (run_op H parse_mt subject_of main other user_mts S ex0).
 
   Lemma matches_desc_true d c : matches_desc H d c = true -> len c = d_sz d /\ H c = d_dg d.
@@ -673,15 +740,16 @@ Section Refine.
     apply N.eqb_eq in A. apply str_eqb_spec in B. auto.
   Qed.
 
-  Ltac fin_ex := eexists _, _, _; split; [reflexivity|try reflexivity].
+  Ltac fin_ex := eexists _, _, _, _; split; [reflexivity|split; [try assumption|try reflexivity]].
 
   Lemma run_op_refines g n rst o :
-    inv g -> wf_op (store_of g) o ->
-    exists g' n' t,
-      run_op' (g, n) rst o = ((g', n'), rst, t, snd (spec_op' (store_of g) o)) /\
+    inv g -> rst_ok rst -> wf_op (store_of g) o ->
+    exists g' n' rst' t,
+      run_op' (g, n) rst o = ((g', n'), rst', t, snd (spec_op' (store_of g) o)) /\
+      rst_ok rst' /\
       store_of g' = fst (spec_op' (store_of g) o).
   Proof.
-    intros Hi Hw. destruct o as [d c|d|d|d|rs|rs|d rs|d c rs|d getc|d|rs|rs]; cbn [run_op spec_op wf_op] in *;
+    intros Hi Hr Hw. destruct o as [d c|d|d|d|rs|rs|d rs|d c rs|d getc|d|rs|rs]; cbn [run_op spec_op wf_op] in *;
       change (t_mans (store_of g)) with (g_mans g) in *; change (t_blobs (store_of g)) with (g_blobs g) in *;
       change (t_other (store_of g)) with (g_other g) in *.
     - (* Push *)
@@ -690,8 +758,10 @@ Section Refine.
       + destruct (matches_desc_true _ _ M) as [Hs Hh].
         destruct (is_manifest user_mts d) eqn:Im.
         * destruct (Hm eq_refl) as [Sj Pm].
-          destruct (man_push_exec g n rst d c (d_dg d) (valid_ref_digest _ V) Hs Hh Sj V) as (g' & n' & t & E & St).
-          unfold put_manifest in E, St. rewrite V, str_eqb_refl in E, St. rewrite E. fin_ex. exact St.
+          destruct (man_push_exec g n rst d c (d_dg d) (valid_ref_digest _ V) Hs Hh Sj Hr V) as (g' & n' & t & E & St).
+          unfold put_manifest in E, St. rewrite V, str_eqb_refl in E, St. rewrite E. fin_ex.
+          -- cbn [rst_of snd]. now apply rst_after_ok.
+          -- exact St.
         * destruct (blob_push_ok g n d c Hs Hh V) as (g' & n' & t & E & St).
           rewrite E. cbn [lift]. fin_ex. exact St.
       + destruct (is_manifest user_mts d).
@@ -723,7 +793,7 @@ Section Refine.
       destruct Hw as [V Ha]. destruct (is_manifest user_mts d).
       + proj. destruct (lookup (d_dg d) (g_mans g)) as [[mt c]|] eqn:L.
         * destruct (Ha _ _ L) as [-> Hs].
-          destruct (man_delete_hit g n rst d c Hi L Hs V) as (g' & n' & t & E & St). rewrite E. fin_ex. exact St.
+          destruct (man_delete_hit g n rst d c Hi Hr L Hs V) as (g' & n' & rst' & t & E & Hr' & St). rewrite E. fin_ex. exact St.
         * destruct (man_delete_miss g n rst d L V) as (n' & t & E). rewrite E. fin_ex.
       + proj. destruct (lookup (d_dg d) (g_blobs g)) as [c|] eqn:L.
         * destruct (delete_blob_hit g n d c L V) as (g' & t & E & St). rewrite E. cbn [lift]. fin_ex. exact St.
@@ -745,14 +815,18 @@ Section Refine.
       destruct (resolve_ref main rs) as [rf|] eqn:ER.
       + proj. destruct (lookup (d_dg d) (g_mans g)) as [[mt c]|] eqn:L.
         * destruct (Ha _ _ L) as [-> Hs].
-          destruct (man_tag_hit g n rst d rs rf c Hi ER L Hs V) as (g' & n' & t & E & St). rewrite E. fin_ex. exact St.
+          destruct (man_tag_hit g n rst d rs rf c Hi Hr ER L Hs V) as (g' & n' & t & E & St). rewrite E. fin_ex.
+          -- now apply rst_of_ok.
+          -- exact St.
         * destruct (man_tag_miss g n rst d rs rf ER L V) as (n' & t & E). rewrite E. fin_ex.
       + unfold man_tag. rewrite ER. fin_ex.
     - (* PushReference *)
       destruct Hw as (V & M & Sj & Pm). rewrite M. destruct (matches_desc_true _ _ M) as [Hs Hh].
       destruct (resolve_ref main rs) as [rf|] eqn:ER.
-      + destruct (man_push_exec g n rst d c rf (resolve_ref_valid _ _ _ ER) Hs Hh Sj V) as (g' & n' & t & E & St).
-        rewrite E. fin_ex. exact St.
+      + destruct (man_push_exec g n rst d c rf (resolve_ref_valid _ _ _ ER) Hs Hh Sj Hr V) as (g' & n' & t & E & St).
+        rewrite E. fin_ex.
+        -- now apply rst_of_ok.
+        -- exact St.
       + fin_ex.
     - (* Mount *)
       destruct getc as [c|].
@@ -764,7 +838,9 @@ Section Refine.
           rewrite E. cbn [lift]. fin_ex. exact St.
         * destruct (blob_mount_pull_miss g n d L) as (g' & n' & t & E & St).
           rewrite E. cbn [lift]. fin_ex. exact St.
-    - contradiction.
+    - (* Predecessors *)
+      assert (Hn : rst <> RSUnsupported) by (destruct Hr as [Hr|Hr]; [exact Hr|congruence]).
+      rewrite (predecessors_reflect g n rst d Hw Hn). fin_ex. left. discriminate.
     - (* blob Resolve *)
       destruct (resolve_ref main rs) as [rf|] eqn:ER.
       + destruct (valid_digest rf) eqn:V.
@@ -785,7 +861,7 @@ Section Refine.
 
   (* ---------- the invariant is preserved (at the level of the specification) ---------- *)
   Lemma sinv_insert_man st dg mt c tags :
-    sinv st -> dg = H c -> subject_of c = Some None -> parse_mt mt = Some mt ->
+    sinv st -> dg = H c -> sub_ok c -> parse_mt mt = Some mt ->
     sinv (mkStore (t_blobs st) (insert dg (mt, c) (t_mans st)) tags (t_other st)).
   Proof.
     intros [I Io] Hd Sj Pm. split; proj; [|exact Io].
@@ -797,7 +873,7 @@ Section Refine.
   Proof. intros [I Io]. split; assumption. Qed.
 
   Lemma put_manifest_sinv st dg mt c rf :
-    sinv st -> dg = H c -> subject_of c = Some None -> parse_mt mt = Some mt ->
+    sinv st -> dg = H c -> sub_ok c -> parse_mt mt = Some mt ->
     sinv (fst (put_manifest st dg mt c rf)).
   Proof.
     intros Hi Hd Sj Pm. unfold put_manifest.
@@ -839,57 +915,40 @@ Section Refine.
 
   (* ---------- histories ---------- *)
   Notation run_ops' := (run_ops H parse_mt subject_of main other user_mts S ex0).
-  Notation spec_run' := (spec_run H main user_mts).
+  Notation spec_run' := (spec_run H subject_of main user_mts).
 
   Lemma run_ops_refines os : forall g n rst,
-    inv g -> wf_hist (store_of g) os ->
-    exists g' n' out,
-      run_ops' (g, n) rst os = ((g', n'), rst, out) /\
+    inv g -> rst_ok rst -> wf_hist (store_of g) os ->
+    exists g' n' rst' out,
+      run_ops' (g, n) rst os = ((g', n'), rst', out) /\
       map snd out = snd (spec_run' (store_of g) os) /\
       store_of g' = fst (spec_run' (store_of g) os).
   Proof.
-    induction os as [|o os IH]; intros g n rst Hi Hw.
-    - exists g, n, []. repeat split.
-    - destruct Hw as [Hw Hr]. cbn [run_ops spec_run].
-      destruct (run_op_refines g n rst o Hi Hw) as (g1 & n1 & t & E & St). rewrite E.
+    induction os as [|o os IH]; intros g n rst Hi Hr Hw.
+    - exists g, n, rst, []. repeat split.
+    - destruct Hw as [Hw Hrest]. cbn [run_ops spec_run].
+      destruct (run_op_refines g n rst o Hi Hr Hw) as (g1 & n1 & rst1 & t & E & Hr1 & St). rewrite E.
       assert (Hi1 : inv g1) by (unfold inv; rewrite St; now apply spec_op_sinv).
-      rewrite <- St in Hr.
-      destruct (IH g1 n1 rst Hi1 Hr) as (g2 & n2 & out & E2 & Ro & St2). rewrite E2.
+      rewrite <- St in Hrest.
+      destruct (IH g1 n1 rst1 Hi1 Hr1 Hrest) as (g2 & n2 & rst2 & out & E2 & Ro & St2). rewrite E2.
       destruct (spec_op' (store_of g) o) as [st1 r1] eqn:Es. cbn [fst snd] in *.
       rewrite St in *. destruct (spec_run' st1 os) as [st2 rs] eqn:Er. cbn [fst snd] in *.
-      eexists _, _, _. split; [reflexivity|]. cbn [map snd fst]. split; [now rewrite Ro|exact St2].
+      eexists _, _, _, _. split; [reflexivity|]. cbn [map snd fst]. split; [now rewrite Ro|exact St2].
   Qed.
 
   Theorem run_history_refines other_blobs rst os g out :
     (forall d c, lookup d other_blobs = Some c -> d = H c) ->
+    rst_ok rst ->
     wf_hist (mkStore [] [] [] other_blobs) os ->
     run_history H parse_mt subject_of main other user_mts p None other_blobs rst os = (g, out) ->
     map snd out = snd (spec_run' (mkStore [] [] [] other_blobs) os) /\
     store_of g = fst (spec_run' (mkStore [] [] [] other_blobs) os).
   Proof.
-    intros Ho Hw. unfold run_history.
+    intros Ho Hr Hw. unfold run_history.
     assert (Hi : inv (reg0 other_blobs)).
     { split; proj; [intros d mt c L; discriminate L|exact Ho]. }
-    destruct (run_ops_refines os (reg0 other_blobs) 0 rst Hi Hw) as (g' & n' & out' & E & Ro & St).
+    destruct (run_ops_refines os (reg0 other_blobs) 0 rst Hi Hr Hw) as (g' & n' & rst' & out' & E & Ro & St).
     rewrite E. intro X. injection X as <- <-. auto.
-  Qed.
-
-  (* ---------- Predecessors reflect the registry's state (Referrers API) ---------- *)
-  Theorem predecessors_reflect g n rst d :
-    p_referrers p = true -> rst <> RSUnsupported ->
-    predecessors main S ex0 (g, n) rst d
-    = ((g, n + 1), RSSupported,
-       [(req GET main (EReferrers (d_dg d)),
-         mkResp 200 (Some mt_index) None None None false None
-                (referrers_of (subj_of subject_of) g (d_dg d)) [])],
-       RDescs (referrers_of (subj_of subject_of) g (d_dg d))).
-  Proof.
-    intros Pr Hr. unfold predecessors.
-    assert (E : ex0 (g, n) (req GET main (EReferrers (d_dg d))) =
-                ((g, n + 1), mkResp 200 (Some mt_index) None None None false None
-                                    (referrers_of (subj_of subject_of) g (d_dg d)) [])).
-    { unfold cexch, handle, req. proj. rewrite str_eqb_refl. proj. now rewrite Pr. }
-    destruct rst; try congruence; rewrite E; simp; rewrite str_eqb_refl; reflexivity.
   Qed.
 End Refine.
 
@@ -961,6 +1020,6 @@ Lemma resolve_tag_without_digest_header_refuted :
   map snd (snd (run_history w_H (fun s => Some s) (fun _ => Some None) (b "app") (b "src") []
                             w_profile None [] RSUnknown w_ops))
   = [ROk; RErr EOther] /\
-  snd (spec_run w_H (b "app") [] (mkStore [] [] [] []) w_ops)
+  snd (spec_run w_H (fun _ => Some None) (b "app") [] (mkStore [] [] [] []) w_ops)
   = [ROk; RDesc w_desc].
 Proof. vm_compute. split; reflexivity. Qed.
